@@ -263,10 +263,30 @@ def c01(X, src, mode="exec"):
     if lone_cr:
         return {"kind": "tree-differs", "feature": "lone-cr-newline", "diff": first_diff(a, b)}
     if not src.isascii():
-        b2 = dump(_byte_to_char_cols(ref, src))
+        ref2 = _byte_to_char_cols(ref, src)
+        b2 = dump(ref2)
         if a == b2:
             return {"kind": "tree-differs", "feature": "nonascii-char-columns", "diff": first_diff(a, b)}
+        # PEP 3131: CPython NFKC-normalises identifiers; if that alone (besides the columns) explains the difference it is KF-C01-4
+        if dump(nfkc_identifiers(tree)) == b2 or dump(nfkc_identifiers(tree)) == b:
+            return {"kind": "tree-differs", "feature": "identifier-not-nfkc", "diff": first_diff(a, b)}
     return {"kind": "tree-differs", "diff": first_diff(a, b)}
+
+
+def nfkc_identifiers(tree):
+    """a copy of the tree with every identifier (every str field except a Constant's value / kind) in NFKC form"""
+    import copy
+    import unicodedata
+    t = copy.deepcopy(tree)
+    for n in ast.walk(t):
+        if isinstance(n, ast.Constant):
+            continue
+        for f, v in ast.iter_fields(n):
+            if isinstance(v, str) and not v.isascii():
+                setattr(n, f, unicodedata.normalize("NFKC", v))
+            elif isinstance(v, list) and v and all(isinstance(x, str) for x in v):
+                setattr(n, f, [unicodedata.normalize("NFKC", x) for x in v])
+    return t
 
 
 def python_lexicon_only(X, src):
